@@ -1409,7 +1409,9 @@ def impl_keys_deep(o, acc):
 
 
 def classify(op, acceptable, observed, impl, ref_before, state_only=False):
-    """name the kind of divergence; known kinds are exactly the recorded findings"""
+    """name the kind of divergence.  Only C18-noncanonical-tag-distinct-key is still a recorded finding; the other
+    named kinds are the defects repaired by /repo commits 7c684d5, 68fefe3, 9e4749c, 8584485 – if one of them
+    shows up again it is reported as a VIOLATION under its old name"""
     cmd = op[0]
     tags = all_tag_objects(op)
 
